@@ -3,6 +3,7 @@ import Driver.C16
 import Driver.C10
 import Driver.C08
 import Driver.C17
+import Driver.C11
 open Lean Driver
 
 def dispatch (p : String) (inp impl : Json) : CaseResult :=
@@ -11,6 +12,7 @@ def dispatch (p : String) (inp impl : Json) : CaseResult :=
   | "C10" => C10.handle inp impl
   | "C08" => C08.handle inp impl
   | "C17" => C17.handle inp impl
+  | "C11" => C11.handle inp impl
   | _ => { model := Json.null, spec := false, why := "unknown property " ++ p }
 
 partial def loop (h : IO.FS.Stream) (out : IO.FS.Stream) : IO Unit := do
